@@ -367,8 +367,16 @@ class IkeSa(object):
                            ''.format(self.spi_i.hex(), self.spi_r.hex()))
             return None
 
-        # receiving any kind of message from the peer resets the DPD timer
-        self.start_dpd_at = time.time() + self.configuration.dpd
+        # once this IKE_SA has keys, only messages whose Encrypted payload passed the integrity check come from the
+        # peer. The only cleartext one still answered is a retransmitted IKE_SA_INIT request (with the stored response)
+        if self.peer_crypto is not None and not message.is_protected:
+            if not (message.exchange_type == Message.Exchange.IKE_SA_INIT and message.is_request
+                    and message.message_id == self.peer_msg_id - 1):
+                self.log_error('Received an unprotected message for an IKE_SA that has keys. Ignoring')
+                return None
+        else:
+            # receiving any kind of (authentic) message from the peer resets the DPD timer
+            self.start_dpd_at = time.time() + self.configuration.dpd
         if message.is_request:
             return self._process_request(message)
         else:
